@@ -3,6 +3,9 @@
 package token
 
 import (
+	"bytes"
+	"crypto/hmac"
+	"crypto/sha256"
 	"hash"
 	"strconv"
 	"time"
@@ -21,6 +24,17 @@ type verifMac struct {
 
 func (m *verifMac) Write(p []byte) (int, error) { m.buf = append(m.buf, p...); return len(p), nil }
 func (m *verifMac) Sum(b []byte) []byte {
+	if !verifIsSymbolicEngine() {
+		// native replay: the MAC the real code uses
+		h := hmac.New(sha256.New, m.key)
+		h.Write(m.buf)
+		return h.Sum(b)
+	}
+	return m.modelSum(b)
+}
+
+// modelSum is the uninterpreted MAC; natively it reads the model's values from the replay vector.
+func (m *verifMac) modelSum(b []byte) []byte {
 	args := make([]uint64, 0, len(m.key)+len(m.buf)+1)
 	args = append(args, uint64(len(m.key)))
 	for _, c := range m.key {
@@ -88,6 +102,18 @@ func Harness_C12_token_roundtrip() {
 func harnessC12TokenAny(n int) {
 	ta := verifAuthenticator()
 	tok := verifNondetBytes("tok", n)
+	if !verifIsSymbolicEngine() && n >= 50 {
+		// Native replay: the solver's token carries the signature of the *uninterpreted* MAC. If it is the
+		// model's valid signature for these fields, re-sign with the real HMAC so that the real code sees
+		// the same situation (a correctly signed token with these fields).
+		mm := &verifMac{key: ta.hmacSalt}
+		mm.Write(tok[:18])
+		if bytes.Equal(mm.modelSum(nil), tok[18:50]) {
+			mm2 := &verifMac{key: ta.hmacSalt}
+			mm2.Write(tok[:18])
+			copy(tok[18:50], mm2.Sum(nil))
+		}
+	}
 	got, _, err := ta.Authenticate(tok, "")
 	if n < 50 {
 		verifAssert(err != nil && got == nil, "truncated-token-refused")
